@@ -100,7 +100,7 @@ def handleR (op : String) : Option (R String) :=
       pure (fmt (decide (spValid K L)) (spCase K L))
   | "b_utw" => some do
       let dof ← nat; done
-      pure (fmt true (pure (some [toString (utWeightSize dof), toString (utWeightSize dof)])))
+      pure (fmt true (utwCase dof))
   | "b_ut" => some do
       let K ← nat; let I ← layout4; let wdof ← nat
       let ol ← nat; let oc ← nat; let oq ← bool; let prows ← nat; let dcols ← nat; let fv ← bool; done
@@ -126,6 +126,21 @@ def handleR (op : String) : Option (R String) :=
       else do
         done
         pure (fmt (decide (ukfValid (kind = 1) I K C cK M)) (ukfCase (kind = 1) I K C cK M))
+  | "b_corrseq" => some do
+      -- kind dl dc quat  <mmod>  [sub reduced]  n (K mv pv iv)*
+      let kind ← nat; let I ← layout3; let M ← mmod
+      let (sub, reduced) ← (if kind = 2 then do let s ← nat; let r ← bool; pure (s, r) else pure (0, false))
+      let n ← nat
+      let steps ← listOf n (do let K ← nat; let mv ← bool; let pv ← bool; let iv ← bool; pure (CStep.mk K mv pv iv))
+      done
+      if kind = 2 then pure (fmt (decide (sukfSeqValid I M sub reduced steps)) (sukfSeqCase I M sub reduced steps))
+      else pure (fmt (decide (ukfSeqValid (kind = 1) I M steps)) (ukfSeqCase (kind = 1) I M steps))
+  | "b_wna_seq" => some do
+      let d ← dim; let nums ← natList; done
+      pure (fmt true (wnaSeqCase d nums))
+  | "b_lm_seq" => some do
+      let n ← nat; let comps ← natList; let nums ← natList; done
+      pure (fmt true (lmSeqCase n comps nums))
   | "b_kfc" => some do
       let K ← nat; let I ← layout3; let cK ← nat; let C ← layout3
       let hm ← nat; let hn ← nat; let ysize ← nat; let mv ← bool; done
